@@ -30,7 +30,7 @@ structure PInv (ex : Pid → Prop) (fr : Pid → Option Frame) (w : World) : Pro
   /-- only running processes await a process or an event -/
   ar : ∀ p, (w.proc p).status ≠ .running → procAw w p = [] ∧ evAw w p = []
   /-- the logical frame is the recorded one wherever it matters -/
-  fb : ∀ p, (w.proc p).blocked ≠ fr p → procAw w p = [] ∧ evAw w p = []
+  fb : ∀ p, ¬ ex p → (w.proc p).blocked ≠ fr p → procAw w p = [] ∧ evAw w p = []
   /-- I_waiters: a registered waiter awaits that process -/
   w1 : ∀ p q, q ∈ (w.proc p).waiters → ¬ ex q → Await.proc p ∈ (w.proc q).awaits
   wn : ∀ p, (w.proc p).waiters.Nodup
@@ -70,7 +70,7 @@ theorem PInv.congr {ex : Pid → Prop} {fr : Pid → Option Frame} {w w' : World
   ap := fun p => by rw [procAw_congr hc]; exact hp.ap p
   ae := fun p => by rw [evAw_congr hc]; exact hp.ae p
   ar := fun p h => by rw [procAw_congr hc, evAw_congr hc]; exact hp.ar p (by rw [← (hc p).2.2.1]; exact h)
-  fb := fun p h => by rw [procAw_congr hc, evAw_congr hc]; exact hp.fb p (by rw [← (hc p).2.2.2]; exact h)
+  fb := fun p hx h => by rw [procAw_congr hc, evAw_congr hc]; exact hp.fb p hx (by rw [← (hc p).2.2.2]; exact h)
   w1 := fun p q h hx => by rw [(hc q).1]; exact hp.w1 p q (by rw [← (hc p).2.1]; exact h) hx
   wn := fun p => by rw [(hc p).2.1]; exact hp.wn p
   e1 := fun h l q hm hq hx => by rw [(hc q).1]; exact hp.e1 h l q (by rw [← hw]; exact hm) hq hx
@@ -269,7 +269,7 @@ theorem PInv.popWake {ex : Pid → Prop} {fr : Pid → Option Frame} {w w1 : Wor
            ap := fun x => by rw [procAw_congr hsc]; exact hp.ap x,
            ae := fun x => by rw [evAw_congr hsc]; exact hp.ae x,
            ar := fun x hx => by rw [procAw_congr hsc, evAw_congr hsc]; rw [hpr] at hx; exact hp.ar x hx,
-           fb := fun x hx => by rw [procAw_congr hsc, evAw_congr hsc]; rw [hpr] at hx; exact hp.fb x hx,
+           fb := fun x hxx hx => by rw [procAw_congr hsc, evAw_congr hsc]; rw [hpr] at hx; exact hp.fb x hxx hx,
            w1 := fun x q hq hx => by rw [hpr] at hq ⊢; exact hp.w1 x q hq hx,
            wn := fun x => by rw [hpr]; exact hp.wn x,
            e1 := ?_, en := ?_, op := ?_, oe := ?_, up := ?_, ue := ?_ }
